@@ -198,3 +198,52 @@ theorem pushdown_bgp (g : Graph) (μ0 : Row n) (tps : List TP) :
   simpa using this
 
 end RV.C04
+
+namespace RV.C04
+open Spec Model
+variable {n : Nat}
+
+/-- Join is commutative (as a bag) -/
+theorem joinBag_comm (A B : List (Row n)) : (joinBag A B).Perm (joinBag B A) := by
+  have e : ∀ (X Y : List (Row n)),
+      joinBag X Y = X.flatMap fun a => Y.flatMap fun b => if a.compat b then [a.merge b] else [] := by
+    intro X Y
+    simp only [joinBag]
+    apply List.flatMap_congr
+    intro a _
+    induction Y with
+    | nil => rfl
+    | cons b Y ih =>
+      simp only [List.filterMap_cons, List.flatMap_cons]
+      cases a.compat b <;> simp [ih]
+  rw [e A B, e B A]
+  refine (flatMap_comm_perm A B _).trans ?_
+  apply List.Perm.of_eq
+  apply List.flatMap_congr
+  intro b _
+  apply List.flatMap_congr
+  intro a _
+  rw [Row.compat_comm a b]
+  cases h : b.compat a with
+  | false => rfl
+  | true => simp [Row.merge_comm_of_compat h]
+
+/-- Union is commutative (as a bag) -/
+theorem union_comm {D : Dataset} {g : Graph} {σ : Row n} (a b : Alg) :
+    (Spec.eval D g σ (.union a b)).Perm (Spec.eval D g σ (.union b a)) := by
+  simp only [Spec.eval]
+  exact List.perm_append_comm
+
+/-- Join is commutative on the algebra (annotations are ignored by the specification) -/
+theorem join_comm {D : Dataset} {g : Graph} {σ : Row n} (l l' : Bool) (a b : Alg) :
+    (Spec.eval D g σ (.join l a b)).Perm (Spec.eval D g σ (.join l' b a)) := by
+  simp only [Spec.eval]
+  exact joinBag_comm _ _
+
+/-- the order of the triple patterns of a BGP is irrelevant to the specification -/
+theorem eval_bgp_perm {D : Dataset} {g : Graph} {σ : Row n} {l1 l2 : List TP} (h : l1.Perm l2) :
+    (Spec.eval D g σ (.bgp l1)).Perm (Spec.eval D g σ (.bgp l2)) := by
+  simp only [Spec.eval]
+  exact bgp_perm (h.map _) _
+
+end RV.C04
